@@ -219,7 +219,7 @@ fn cases(seed: u64, doc: &str, vi: u64, tier: Tier) -> Vec<(Mutation, Via)> {
 }
 
 pub fn n_units(tier: Tier) -> u64 {
-    ALL_DOCS.len() as u64 * values_per_doc(tier, 16, 1000)
+    n_docs() * values_per_doc(tier, 16, 1000)
 }
 
 struct RunUnit<'a> {
